@@ -126,6 +126,7 @@ func (c05) Exec(ctx *core.Ctx, cs *core.Case) {
 	ctx.Count(fmt.Sprintf("observation_mode_%d", mode))
 	applied := 0
 	for i, op := range cs.Ops {
+		op = respellOp(op, mu.Ten())
 		if !obs.IsSetter(op.Name) {
 			continue
 		}
